@@ -132,7 +132,7 @@ def _merge_verdict(ctx, exe, tier, pinned):
                 known={k["key"]: k["count"] for k in summ["known"]},
                 fixedlike={k["key"]: k["count"] for k in summ["fixedlike"]},
                 other={k["key"]: k["count"] for k in summ["other"]})
-    if not summ["other"] and not summ["fixedlike"]:
+    if not summ["other"] and not summ["fixedlike"] and summ["orphans"] == 0:
         # the code is the pinned model, step for step
         shapes = [k for k in summ["known"]]
         for k in shapes[:4]:
@@ -156,14 +156,18 @@ def _merge_verdict(ctx, exe, tier, pinned):
                 known={k["key"]: k["count"] for k in fsumm["known"]},
                 fixedlike={k["key"]: k["count"] for k in fsumm["fixedlike"]},
                 other={k["key"]: k["count"] for k in fsumm["other"]})
-    if not fsumm["other"] and not fsumm["known"] and not [k for k in fsumm["fixedlike"] if not k["key"].startswith("strict:")]:
+    if (not fsumm["other"] and not fsumm["known"] and fsumm["orphans"] == 0 and fsumm["strict_diff"] == 0
+            and not fsumm["fixedlike"]):
         ctx.note("the code matches the repaired model (MaskUpdated = TRUE) on every transition: finding F1 is not present")
         for k in fsumm["fixedlike"]:
             ctx.report_drift("merge: internal state differs from the repaired detailed model (%s x%d), observable results agree" % (
                 k["key"], k["count"]))
         return
     # neither model: violations are the steps the property-level spec rejects
-    best = summ if len(summ["other"]) <= len(fsumm["other"]) else fsumm
+    # judge against the model the code follows further (fewer transitions left unexplored)
+    def _score(x):
+        return (x["orphans"] + sum(k["count"] for k in x["other"]), x["strict_diff"])
+    best = summ if _score(summ) <= _score(fsumm) else fsumm
     for k in best["other"][:6]:
         ctx.report(k["key"], "merge: the real result is neither what SrvInfo.tla (either model) nor what the "
                    "property-level spec allows (%d transition(s))" % k["count"], k["first"]["replay"])
@@ -171,6 +175,9 @@ def _merge_verdict(ctx, exe, tier, pinned):
         _report_known(ctx, k["key"], k["count"], "merge graph", k["first"]["replay"])
     for k in best["fixedlike"][:3]:
         ctx.report_drift("merge: differs from the detailed model but the property-level spec accepts (%s x%d)" % (k["key"], k["count"]))
+    if not best["other"] and not best["known"]:
+        ctx.report_drift("merge: the code follows neither detailed model exactly (orphans %d, strict differences %d) but no "
+                         "transition is rejected by the property-level spec" % (best["orphans"], best["strict_diff"]))
 
 
 def _parse_verdict(ctx, tier, parsed):
